@@ -1,8 +1,61 @@
-import TypstyleModel.Props.C01
-/-! C09 — (partial) see DESIGN.md §4 C09. Foundation: layout soundness and the post-pass. -/
+import TypstyleModel.Props.C07
+import TypstyleModel.Proofs.Monad
+/-! C09 — white space in math is neither created, removed nor converted (printer side).
+`convert_math` walks the children of a `Math` node in order; the theorems say what each kind of
+child contributes, and that nothing is inserted between two children. -/
 namespace Typstyle
 open Pretty
 
-theorem C09_layout_sound (w : Nat) (d : Doc) : Lay .brk d (best w 0 [⟨0, .brk, d⟩]) := pretty_lay w d
+/-- T9.1a: a white-space child of a `Math` node is printed as a hard line break if it contains a
+line break (any newline Typst recognises), and as exactly one blank otherwise — never as a soft break
+that a wide line could flatten, never as nothing. -/
+theorem C09_math_space (e : Env) (r : Rec) (ctx : Ctx) (doc : Twin.Doc) (atHash : Bool) (node : ANode)
+    (hx : isExpr node = false) (h : node.kind = .space) :
+    mathStep e r ctx (doc, atHash) node =
+      pure (doc ++ (if hasLinebreak node.text then Twin.hardline else Twin.space), false) := by
+  simp [mathStep, hx, h]
+
+/-- A hard line break is never flattened (R2), and a blank is a text atom: so the white space of
+the output between two math atoms has a line break iff the source's had. -/
+theorem C09_hard_break_survives_every_layout (m : Mode) (xs : List Atom) (h : Lay m Pretty.hardline xs) :
+    ∃ k, xs = [.nl k] := by
+  cases h
+  exact ⟨_, rfl⟩
+
+/-- T9.1b: an expression child contributes its own conversion and *nothing else*: no blank or break
+is created between two adjacent atoms. -/
+theorem C09_math_atom_adds_no_space (e : Env) (r : Rec) (ctx : Ctx) (doc : Twin.Doc) (atHash : Bool) (node : ANode)
+    (hx : isExpr node = true) :
+    mathStep e r ctx (doc, atHash) node =
+      (do let d ← r.expr (ctx.withModeIf .code atHash) node; pure (doc ++ d, false)) := by
+  simp [mathStep, hx]
+
+/-- T9.1c: every other leaf (delimiters of a call, `#`) is copied. -/
+theorem C09_math_other_leaf_is_copied (e : Env) (r : Rec) (ctx : Ctx) (doc : Twin.Doc) (atHash : Bool) (node : ANode)
+    (hx : isExpr node = false) (h1 : node.kind ≠ .space) (h2 : node.kind ≠ .hash) (h3 : isCommentKind node.kind = false) :
+    mathStep e r ctx (doc, atHash) node = pure (doc ++ e.tok node.text, false) := by
+  simp [mathStep, hx, h1, h2, h3]
+
+/-- Math is always converted with breaks suppressed (embedded code cannot introduce line breaks
+between math atoms). -/
+theorem C09_math_suppresses_breaks (e : Env) (r : Rec) (ctx : Ctx) (n : ANode) (h : n.attrs.disabled = false) :
+    convMath e r ctx n =
+      (do enter .math n.attrs.id
+          let acc ← n.children.foldlM (mathStep e r ctx.suppress) (Twin.Doc.nil, false)
+          pure acc.1) := by
+  simp [convMath, h]
+
+/-- T9.2: inside math delimiters, white space between the pieces is a blank, or a (soft) line break
+where the source had a line break; a `Math` child is converted by the math entry point; nothing else
+is emitted for other children. -/
+theorem C09_delimited_space (r : Rec) (c : Ctx) (node : ANode) (hm : node.kind ≠ .math) (h : node.kind = .space) :
+    delimitedProducer r () c node =
+      pure ((), tight (if hasLinebreak node.text then Twin.line else Twin.space)) := by
+  simp [delimitedProducer, hm, h]
+
+/-- T9.4 (exemption): around sub/superscripts and roots, white space is dropped (Typst ignores it there). -/
+theorem C09_attach_drops_space (e : Env) (r : Rec) (c : Ctx) (node : ANode) (hx : isExpr node = false) (h : node.kind = .space) :
+    attachProducer e r () c node = pure ((), none) := by
+  simp [attachProducer, hx, h]
 
 end Typstyle
